@@ -544,15 +544,16 @@ long long c_voronoi(long long nrows, long long ncols,
         if(ierr>0)
             return GRID_ERROR + __LINE__;
 
-        /* Find closest point */
-        distmin = 1e30;
+        /* Find closest point (the first point is the closest so far,
+         * whatever its distance: no upper limit on distances) */
+        distmin = 0.;
         jmin = 0;
         for(j=0; j<npoints; j++){
             dx = xy[0]-xypoints[2*j];
             dy = xy[1]-xypoints[2*j+1];
             dist = sqrt(dx*dx+dy*dy);
 
-            if(dist<distmin){
+            if(j==0 || dist<distmin){
                 distmin = dist;
                 jmin = j;
             }
